@@ -8,6 +8,7 @@ import Driver.Zones
 import Driver.Heap
 import Driver.Assoc
 import Driver.Shape
+import Driver.Loader
 /-! `grdriver <mode>`: one input line → one output line (DESIGN.md §2 "line protocol") -/
 open Driver
 
@@ -37,6 +38,7 @@ def main (args : List String) : IO UInt32 := do
   | ["heap"] => loop stdin stdout Heap.step; return 0
   | ["lines"] => loop stdin stdout Heap.stepLines; return 0
   | ["shape"] => loop stdin stdout Shape.step; return 0
+  | ["loader"] => loop stdin stdout Loader.step; return 0
   | ["assoc"] => loop stdin stdout Assoc.step; return 0
   | ["lz4io"] => loopIO stdin stdout Lz4.stepIO; return 0
   | _ => IO.eprintln "usage: grdriver <mode>"; return 2
